@@ -28,11 +28,28 @@
 #include <tbox/event/loop.h>
 #include <tbox/event/timer_event.h>
 
+#ifdef TBOX_VERIF_HOOKS
+#include "verif_hooks.h"
+#endif
+
 namespace tbox {
 namespace alarm {
 
+#ifdef TBOX_VERIF_HOOKS
+namespace verif {
+namespace { UtcClockFunc _utc_clock_func = nullptr; }
+void SetUtcClock(UtcClockFunc func) { _utc_clock_func = func; }
+}
+#endif
+
 bool Alarm::GetCurrentUtcTime(uint32_t &utc_sec)
 {
+#ifdef TBOX_VERIF_HOOKS
+  if (verif::_utc_clock_func != nullptr) {
+    uint32_t utc_usec = 0;
+    return verif::_utc_clock_func(utc_sec, utc_usec);
+  }
+#endif
   struct timeval utc_tv;
   if (gettimeofday(&utc_tv, nullptr) == 0) {
     utc_sec = utc_tv.tv_sec;
@@ -45,6 +62,10 @@ bool Alarm::GetCurrentUtcTime(uint32_t &utc_sec)
 
 bool Alarm::GetCurrentUtcTime(uint32_t &utc_sec, uint32_t &utc_usec)
 {
+#ifdef TBOX_VERIF_HOOKS
+  if (verif::_utc_clock_func != nullptr)
+    return verif::_utc_clock_func(utc_sec, utc_usec);
+#endif
   struct timeval utc_tv;
   if (gettimeofday(&utc_tv, nullptr) == 0) {
     utc_sec = utc_tv.tv_sec;
